@@ -939,4 +939,701 @@ theorem rstep_runScript (he : EnvRel pub env1 env2) (S : RSpec pub env1 env2 n) 
       exact S.runScript _ _ _ _ g.1 g.2 hk hsk
     all_goals trivial
 
+theorem RR_then_wb {ov0 : Override} {r1 r2 : Res} (h : RR ov0 r1 r2) (c : Byte) :
+    RR ov0 (r1.bind fun q => .ok (q.wb c)) (r2.bind fun q => .ok (q.wb c)) :=
+  RR_bind h (fun _ _ hq ho => RR_ok (P_wb hq c) ho)
+
+theorem secAt_under {ov0 : Override} {ms : Methods} {ty : List Byte} {sv reg nr : Bool} {ret : Nat} {sc : Script} {under : Val}
+    (h : SecAt pub ov0 (.meth ms ty sv reg nr ret sc under)) : SecAt pub ov0 under := by
+  cases ov0
+  · simp only [SecAt, SecV] at h; exact h.2.2.2
+  · simp only [SecAt, AllPubV] at h; exact h.2.2
+  · trivial
+
+theorem secAt_struct {ov0 : Override} {ty : List Byte} {reg : Bool} {fs : Fields}
+    (h : SecAt pub ov0 (.struct ty reg fs)) : SecAtFs pub ov0 fs := by
+  cases ov0
+  · simp only [SecAt, SecV] at h; exact h.2
+  · simp only [SecAt, AllPubV] at h; exact h
+  · trivial
+
+theorem secAt_slice {ov0 : Override} {ty : List Byte} {a b : Bool} {es : Vals}
+    (h : SecAt pub ov0 (.slice ty a b es)) : SecAtVs pub ov0 es := by
+  cases ov0
+  · simp only [SecAt, SecV] at h; exact h
+  · simp only [SecAt, AllPubV] at h; exact h
+  · trivial
+
+theorem secAt_map {ov0 : Override} {ty : List Byte} {a b c : Bool} {ks vs : Vals}
+    (h : SecAt pub ov0 (.map ty a b c ks vs)) : SecAtVs pub ov0 ks ∧ SecAtVs pub ov0 vs := by
+  cases ov0
+  · simp only [SecAt, SecV] at h; exact h
+  · simp only [SecAt, AllPubV] at h; exact h
+  · exact ⟨trivial, trivial⟩
+
+theorem secAt_ptrTo {ov0 : Override} {ty : List Byte} {to : Val}
+    (h : SecAt pub ov0 (.ptrTo ty to)) : SecAt pub ov0 to := by
+  cases ov0
+  · simpa [SecAt, SecV] using h
+  · simpa [SecAt, AllPubV] using h
+  · trivial
+
+theorem rstep_printValue (he : EnvRel pub env1 env2) (S : RSpec pub env1 env2 n) :
+    ∀ ov0 p1 p2 v verb d ro, PRel p1 p2 → p1.override = ov0 → ValOk v → SecAt pub ov0 v →
+    RR ov0 (printValue env1 (n + 1) p1 v verb d ro) (printValue env2 (n + 1) p2 v verb d ro) := by
+  intro ov0 p1 p2 v verb d ro hp ho hv hs
+  prel_cases
+  simp only at ho
+  have hpo : PO ov0 _ _ := ⟨hp, ho⟩
+  unfold printValue
+  simp only
+  split
+  · exact (hpo.w _).ok
+  · split
+    · exact RR_leafWrite he hp ho _ _ _ _ (secAt_leaf hs)
+    · exact S.badVerb _ _ _ _ _ _ hp ho hv hs
+  · exact S.printValue _ _ _ _ _ _ _ hp ho (by simp only [ValOk] at hv; exact hv.2) (secAt_under hs)
+  · -- struct
+    rename_i ty reg fields
+    have hf : FieldsOk fields := by simpa [ValOk] using hv
+    have g1 := (PO.ite (c := f.sharpV = true) (hpo.w ty) hpo).wb 0x7B
+    apply RR_then_wb
+    exact S.printFields _ _ _ _ _ _ _ _ g1.1 g1.2 hf (secAt_struct hs)
+  · -- slice
+    rename_i ty isNil iface elems
+    have hes : ValsOk elems := by simpa [ValOk] using hv
+    split
+    · split
+      · exact ((hpo.w ty).w _).ok
+      · have g2 := (hpo.w ty).wb 0x7B
+        apply RR_then_wb
+        exact S.printElems _ _ _ _ _ _ _ _ _ g2.1 g2.2 hes (secAt_slice hs)
+    · have g2 := hpo.wb 0x5B
+      apply RR_then_wb
+      exact S.printElems _ _ _ _ _ _ _ _ _ g2.1 g2.2 hes (secAt_slice hs)
+  · -- map
+    rename_i ty isNil ifaceK ifaceV keys vals
+    have hk : ValsOk keys ∧ ValsOk vals := by simpa [ValOk] using hv
+    split
+    · exact ((hpo.w ty).w _).ok
+    · have g1 := PO.ite (c := f.sharpV = true) ((hpo.w ty).wb 0x7B) (hpo.w "map[".toUTF8.toList)
+      apply RR_bind (S.printPairs _ _ _ _ _ _ _ _ _ _ _ g1.1 g1.2 hk.1 hk.2 (secAt_map hs).1 (secAt_map hs).2)
+      intro q1 q2 hq hoq
+      rw [hq.f]
+      exact RR_ok (P_wb hq _) hoq
+  · -- pointer
+    split
+    · have g := hpo.wb 0x26
+      exact S.printValue _ _ _ _ _ _ _ g.1 g.2 (by simpa [ValOk] using hv) (secAt_ptrTo hs)
+    · exact RR_unsupported _
+  · exact RR_unsupported _
+  · exact RR_unsupported _
+  · exact RR_unsupported _
+
+
+theorem rstep_printSlot (S : RSpec pub env1 env2 n) :
+    ∀ ov0 p1 p2 v verb d i ro, PRel p1 p2 → p1.override = ov0 → ValOk v → SecAt pub ov0 v →
+    RR ov0 (printSlot env1 (n + 1) p1 v verb d i ro) (printSlot env2 (n + 1) p2 v verb d i ro) := by
+  intro ov0 p1 p2 v verb d i ro hp ho hv hs
+  have hpo : PO ov0 p1 p2 := ⟨hp, ho⟩
+  unfold printSlot
+  split
+  · rw [hp.f]
+    split
+    · exact (hpo.w _).ok
+    · exact (hpo.w _).ok
+  · dsimp only
+    -- the general prologue, for any related pair in any override context
+    have noMethod : ∀ ov q1 q2, PRel q1 q2 → q1.override = ov → SecAt pub ov v → RR ov
+        (if i = true then printSlot env1 n q1 v verb (d + 1) false ro else printValue env1 n q1 v verb d ro)
+        (if i = true then printSlot env2 n q2 v verb (d + 1) false ro else printValue env2 n q2 v verb d ro) := by
+      intro ov q1 q2 hq hoq hsq
+      split
+      · exact S.printSlot _ _ _ _ _ _ _ _ hq hoq hv hsq
+      · exact S.printValue _ _ _ _ _ _ _ hq hoq hv hsq
+    have afterMethods : ∀ ov q1 q2, PRel q1 q2 → q1.override = ov → SecAt pub ov v → RR ov
+        (if (!ro) = true then
+          match slotMethods env1 n q1 v verb with
+          | (true, r) => r
+          | (false, _) => (if i = true then printSlot env1 n q1 v verb (d + 1) false ro else printValue env1 n q1 v verb d ro)
+        else (if i = true then printSlot env1 n q1 v verb (d + 1) false ro else printValue env1 n q1 v verb d ro))
+        (if (!ro) = true then
+          match slotMethods env2 n q2 v verb with
+          | (true, r) => r
+          | (false, _) => (if i = true then printSlot env2 n q2 v verb (d + 1) false ro else printValue env2 n q2 v verb d ro)
+        else (if i = true then printSlot env2 n q2 v verb (d + 1) false ro else printValue env2 n q2 v verb d ro)) := by
+      intro ov q1 q2 hq hoq hsq
+      split
+      · exact RR_handled _ _ _ _ (S.slotMethods _ _ _ _ _ hq hoq hv hsq) (noMethod _ _ _ hq hoq hsq)
+      · exact noMethod _ _ _ hq hoq hsq
+    have body : ∀ ov q1 q2, PRel q1 q2 → q1.override = ov → SecAt pub ov v → RR ov
+        (if (!ro) = true ∧ isSafeValue v = true then bracket PP.startSafeOverride q1 (fun q =>
+            if (!ro) = true then
+              match slotMethods env1 n q v verb with
+              | (true, r) => r
+              | (false, _) => (if i = true then printSlot env1 n q v verb (d + 1) false ro else printValue env1 n q v verb d ro)
+            else (if i = true then printSlot env1 n q v verb (d + 1) false ro else printValue env1 n q v verb d ro))
+         else
+            if (!ro) = true then
+              match slotMethods env1 n q1 v verb with
+              | (true, r) => r
+              | (false, _) => (if i = true then printSlot env1 n q1 v verb (d + 1) false ro else printValue env1 n q1 v verb d ro)
+            else (if i = true then printSlot env1 n q1 v verb (d + 1) false ro else printValue env1 n q1 v verb d ro))
+        (if (!ro) = true ∧ isSafeValue v = true then bracket PP.startSafeOverride q2 (fun q =>
+            if (!ro) = true then
+              match slotMethods env2 n q v verb with
+              | (true, r) => r
+              | (false, _) => (if i = true then printSlot env2 n q v verb (d + 1) false ro else printValue env2 n q v verb d ro)
+            else (if i = true then printSlot env2 n q v verb (d + 1) false ro else printValue env2 n q v verb d ro))
+         else
+            if (!ro) = true then
+              match slotMethods env2 n q2 v verb with
+              | (true, r) => r
+              | (false, _) => (if i = true then printSlot env2 n q2 v verb (d + 1) false ro else printValue env2 n q2 v verb d ro)
+            else (if i = true then printSlot env2 n q2 v verb (d + 1) false ro else printValue env2 n q2 v verb d ro)) := by
+      intro ov q1 q2 hq hoq hsq
+      split
+      · rename_i hc
+        apply RR_bracket _ startOk_safeOverride hq hoq
+        exact RR_from (afterMethods _ _ _ (startOk_safeOverride.rel _ _ hq) (ov_if_no_safe hoq) (secAt_flagged hsq (Or.inr hc.2)))
+          (ov_if_no_safe hoq).symm
+      · exact afterMethods _ _ _ hq hoq hsq
+    have general : RR ov0
+        (if (!i) = true ∧ isRegistered v = true then bracket PP.startSafeOverride p1 (fun q0 =>
+          (if (!ro) = true ∧ isSafeValue v = true then bracket PP.startSafeOverride q0 (fun q =>
+            if (!ro) = true then
+              match slotMethods env1 n q v verb with
+              | (true, r) => r
+              | (false, _) => (if i = true then printSlot env1 n q v verb (d + 1) false ro else printValue env1 n q v verb d ro)
+            else (if i = true then printSlot env1 n q v verb (d + 1) false ro else printValue env1 n q v verb d ro))
+         else
+            if (!ro) = true then
+              match slotMethods env1 n q0 v verb with
+              | (true, r) => r
+              | (false, _) => (if i = true then printSlot env1 n q0 v verb (d + 1) false ro else printValue env1 n q0 v verb d ro)
+            else (if i = true then printSlot env1 n q0 v verb (d + 1) false ro else printValue env1 n q0 v verb d ro)))
+         else (if (!ro) = true ∧ isSafeValue v = true then bracket PP.startSafeOverride p1 (fun q =>
+            if (!ro) = true then
+              match slotMethods env1 n q v verb with
+              | (true, r) => r
+              | (false, _) => (if i = true then printSlot env1 n q v verb (d + 1) false ro else printValue env1 n q v verb d ro)
+            else (if i = true then printSlot env1 n q v verb (d + 1) false ro else printValue env1 n q v verb d ro))
+         else
+            if (!ro) = true then
+              match slotMethods env1 n p1 v verb with
+              | (true, r) => r
+              | (false, _) => (if i = true then printSlot env1 n p1 v verb (d + 1) false ro else printValue env1 n p1 v verb d ro)
+            else (if i = true then printSlot env1 n p1 v verb (d + 1) false ro else printValue env1 n p1 v verb d ro)))
+        (if (!i) = true ∧ isRegistered v = true then bracket PP.startSafeOverride p2 (fun q0 =>
+          (if (!ro) = true ∧ isSafeValue v = true then bracket PP.startSafeOverride q0 (fun q =>
+            if (!ro) = true then
+              match slotMethods env2 n q v verb with
+              | (true, r) => r
+              | (false, _) => (if i = true then printSlot env2 n q v verb (d + 1) false ro else printValue env2 n q v verb d ro)
+            else (if i = true then printSlot env2 n q v verb (d + 1) false ro else printValue env2 n q v verb d ro))
+         else
+            if (!ro) = true then
+              match slotMethods env2 n q0 v verb with
+              | (true, r) => r
+              | (false, _) => (if i = true then printSlot env2 n q0 v verb (d + 1) false ro else printValue env2 n q0 v verb d ro)
+            else (if i = true then printSlot env2 n q0 v verb (d + 1) false ro else printValue env2 n q0 v verb d ro)))
+         else (if (!ro) = true ∧ isSafeValue v = true then bracket PP.startSafeOverride p2 (fun q =>
+            if (!ro) = true then
+              match slotMethods env2 n q v verb with
+              | (true, r) => r
+              | (false, _) => (if i = true then printSlot env2 n q v verb (d + 1) false ro else printValue env2 n q v verb d ro)
+            else (if i = true then printSlot env2 n q v verb (d + 1) false ro else printValue env2 n q v verb d ro))
+         else
+            if (!ro) = true then
+              match slotMethods env2 n p2 v verb with
+              | (true, r) => r
+              | (false, _) => (if i = true then printSlot env2 n p2 v verb (d + 1) false ro else printValue env2 n p2 v verb d ro)
+            else (if i = true then printSlot env2 n p2 v verb (d + 1) false ro else printValue env2 n p2 v verb d ro))) := by
+      split
+      · rename_i hc
+        apply RR_bracket _ startOk_safeOverride hp ho
+        exact RR_from (body _ _ _ (startOk_safeOverride.rel _ _ hp) (ov_if_no_safe ho) (secAt_flagged hs (Or.inl hc.2)))
+          (ov_if_no_safe ho).symm
+      · exact body _ _ _ hp ho hs
+    cases i with
+    | true =>
+      simp only [Bool.not_true, Bool.false_eq_true, false_and, if_false, if_true] at general ⊢
+      exact general
+    | false =>
+      cases v with
+      | safeW inner =>
+        simp only [Bool.false_eq_true, if_false]
+        apply RR_bracket _ startOk_safeOverride hp ho
+        exact RR_from (S.printSlot _ _ _ _ _ _ _ _ (startOk_safeOverride.rel _ _ hp) (ov_if_no_safe ho) (valOk_safeW hv) (secAt_safeW hs))
+          (ov_if_no_safe ho).symm
+      | unsafeW inner =>
+        simp only [Bool.false_eq_true, if_false]
+        apply RR_bracket _ startOk_unsafeOverride hp ho
+        exact RR_from (S.printSlot _ _ _ _ _ _ _ _ (startOk_unsafeOverride.rel _ _ hp) (ov_if_no_unsafe ho) (valOk_unsafeW hv) (secAt_unsafeW hs))
+          (ov_if_no_unsafe ho).symm
+      | redactable content ty =>
+        simp only [Bool.false_eq_true, if_false]
+        exact RR_preRedactable hp ho _ (by simpa [ValOk] using hv)
+      | _ =>
+        simp only [Bool.not_false, Bool.false_eq_true, true_and, if_false, if_true] at general ⊢
+        exact general
+
+
+theorem rstep_slotMethods (S : RSpec pub env1 env2 n) :
+    ∀ ov0 p1 p2 v verb, PRel p1 p2 → p1.override = ov0 → ValOk v → SecAt pub ov0 v →
+    RB ov0 (slotMethods env1 (n + 1) p1 v verb) (slotMethods env2 (n + 1) p2 v verb) := by
+  intro ov0 p1 p2 v verb hp ho hv hs
+  have hpo : PO ov0 p1 p2 := ⟨hp, ho⟩
+  unfold slotMethods
+  rw [hp.er, hp.ov]
+  split
+  · exact RB_mk hpo.ok
+  · split
+    · rename_i c ty
+      split
+      · have hsc : ScriptOk (.print (.cons (.redactable c ty) .nil) .done) := by
+          simp only [ScriptOk, ValsOk]; exact ⟨⟨hv, trivial⟩, trivial⟩
+        have hss : SecAtS pub ov0 (.print (.cons (.redactable c ty) .nil) .done) := by
+          cases ov0 <;> simp [SecAtS, SecS, SecVs, SecV, AllPubS, AllPubVs, AllPubV]
+        have := S.runScript _ _ _ _ hp ho hsc hss
+        refine RB_mk ?_
+        generalize runScript env1 n p1 (.print (.cons (.redactable c ty) .nil) .done) = x1 at this ⊢
+        generalize runScript env2 n p2 (.print (.cons (.redactable c ty) .nil) .done) = x2 at this ⊢
+        cases x1 <;> cases x2 <;> simp only [SR] at this <;> try (exact this.elim)
+        · exact this
+        · exact RR_panic _
+        · exact this
+      · exact RB_mk hpo.ok
+    · exact RB_mk (RR_unsupported _)
+    · exact RB_mk (RR_unsupported _)
+    · exact S.handleMethods _ _ _ _ _ hp ho hv hs
+
+theorem secAtFs_cons {ov0 : Override} {nm : List Byte} {ex it : Bool} {v : Val} {r : Fields}
+    (h : SecAtFs pub ov0 (.cons nm ex it v r)) : SecAt pub ov0 v ∧ SecAtFs pub ov0 r := by
+  cases ov0
+  · simp only [SecAtFs, SecFs] at h; exact h
+  · simp only [SecAtFs, AllPubFs] at h; exact h
+  · exact ⟨trivial, trivial⟩
+
+theorem secAtVs_cons {ov0 : Override} {v : Val} {r : Vals}
+    (h : SecAtVs pub ov0 (.cons v r)) : SecAt pub ov0 v ∧ SecAtVs pub ov0 r := by
+  cases ov0
+  · simp only [SecAtVs, SecVs] at h; exact h
+  · simp only [SecAtVs, AllPubVs] at h; exact h
+  · exact ⟨trivial, trivial⟩
+
+theorem rstep_printFields (S : RSpec pub env1 env2 n) :
+    ∀ ov0 p1 p2 fs verb d ro f, PRel p1 p2 → p1.override = ov0 → FieldsOk fs → SecAtFs pub ov0 fs →
+    RR ov0 (printFields env1 (n + 1) p1 fs verb d ro f) (printFields env2 (n + 1) p2 fs verb d ro f) := by
+  intro ov0 p1 p2 fs verb d rdo fst hp ho hfs hss
+  have hpo : PO ov0 p1 p2 := ⟨hp, ho⟩
+  unfold printFields
+  split
+  · exact hpo.ok
+  · rename_i name exported it v rest
+    have hv : ValOk v ∧ FieldsOk rest := by simpa [FieldsOk] using hfs
+    have hsv := secAtFs_cons hss
+    dsimp only
+    rw [hp.f]
+    have g1 := PO.ite (c := fst = true) hpo (PO.ite (c := p1.f.sharpV = true) (hpo.w ", ".toUTF8.toList) (hpo.wb 0x20))
+    revert g1
+    generalize (if fst = true then _ else _ : PP) = x1
+    generalize (if fst = true then _ else _ : PP) = x2
+    intro g1
+    rw [g1.1.f]
+    have g2 := PO.ite (c := x1.f.plusV = true ∨ x1.f.sharpV = true) ((g1.w name).wb 0x3A) g1
+    apply RR_bind (S.printSlot _ _ _ _ _ _ _ _ g2.1 g2.2 hv.1 hsv.1)
+    intro q1 q2 hq hoq
+    exact S.printFields _ _ _ _ _ _ _ _ hq hoq hv.2 hsv.2
+
+theorem rstep_printElems (S : RSpec pub env1 env2 n) :
+    ∀ ov0 p1 p2 vs verb d i ro f, PRel p1 p2 → p1.override = ov0 → ValsOk vs → SecAtVs pub ov0 vs →
+    RR ov0 (printElems env1 (n + 1) p1 vs verb d i ro f) (printElems env2 (n + 1) p2 vs verb d i ro f) := by
+  intro ov0 p1 p2 vs verb d i rdo fst hp ho hvs hss
+  have hpo : PO ov0 p1 p2 := ⟨hp, ho⟩
+  unfold printElems
+  split
+  · exact hpo.ok
+  · rename_i v rest
+    have hv : ValOk v ∧ ValsOk rest := by simpa [ValsOk] using hvs
+    have hsv := secAtVs_cons hss
+    dsimp only
+    rw [hp.f]
+    have g1 := PO.ite (c := fst = true) hpo (PO.ite (c := p1.f.sharpV = true) (hpo.w ", ".toUTF8.toList) (hpo.wb 0x20))
+    apply RR_bind (S.printSlot _ _ _ _ _ _ _ _ g1.1 g1.2 hv.1 hsv.1)
+    intro q1 q2 hq hoq
+    exact S.printElems _ _ _ _ _ _ _ _ _ hq hoq hv.2 hsv.2
+
+theorem rstep_printPairs (S : RSpec pub env1 env2 n) :
+    ∀ ov0 p1 p2 ks vs verb d ik iv ro f, PRel p1 p2 → p1.override = ov0 → ValsOk ks → ValsOk vs →
+    SecAtVs pub ov0 ks → SecAtVs pub ov0 vs →
+    RR ov0 (printPairs env1 (n + 1) p1 ks vs verb d ik iv ro f) (printPairs env2 (n + 1) p2 ks vs verb d ik iv ro f) := by
+  intro ov0 p1 p2 ks vs verb d ik iv rdo fst hp ho hks hvs hsk hsv
+  have hpo : PO ov0 p1 p2 := ⟨hp, ho⟩
+  unfold printPairs
+  split
+  · rename_i k kr v vr
+    have hk : ValOk k ∧ ValsOk kr := by simpa [ValsOk] using hks
+    have hv : ValOk v ∧ ValsOk vr := by simpa [ValsOk] using hvs
+    have sk := secAtVs_cons hsk
+    have sv := secAtVs_cons hsv
+    dsimp only
+    rw [hp.f]
+    have g1 := PO.ite (c := fst = true) hpo (PO.ite (c := p1.f.sharpV = true) (hpo.w ", ".toUTF8.toList) (hpo.wb 0x20))
+    apply RR_bind (S.printSlot _ _ _ _ _ _ _ _ g1.1 g1.2 hk.1 sk.1)
+    intro q1 q2 hq hoq
+    have g2 := (show PO ov0 q1 q2 from ⟨hq, hoq⟩).wb 0x3A
+    apply RR_bind (S.printSlot _ _ _ _ _ _ _ _ g2.1 g2.2 hv.1 sv.1)
+    intro r1 r2 hr hor
+    exact S.printPairs _ _ _ _ _ _ _ _ _ _ _ hr hor hk.2 hv.2 sk.2 sv.2
+  · exact hpo.ok
+
+theorem argNumber_rel {ov0 : Override} {p1 p2 : PP} (h : PO ov0 p1 p2) (argNum : Nat) (f : List Byte) (numArgs : Nat) :
+    PO ov0 (argNumber p1 argNum f numArgs).1 (argNumber p2 argNum f numArgs).1 ∧
+    (argNumber p1 argNum f numArgs).2 = (argNumber p2 argNum f numArgs).2 := by
+  obtain ⟨hp, ho⟩ := h
+  unfold argNumber
+  repeat' split
+  all_goals first
+    | exact ⟨⟨hp, ho⟩, rfl⟩
+    | exact ⟨⟨by prel_upd hp, ho⟩, rfl⟩
+    | skip
+
+
+theorem widthStage_rel {ov0 : Override} {p1 p2 : PP} (h : PO ov0 p1 p2) (args : List Val) (argNum : Nat) (r : List Byte) (ai : Bool) :
+    PO ov0 (widthStage p1 args argNum r ai).1 (widthStage p2 args argNum r ai).1 ∧
+    (widthStage p1 args argNum r ai).2 = (widthStage p2 args argNum r ai).2 := by
+  obtain ⟨hp, ho⟩ := h
+  prel_cases
+  simp only at ho
+  unfold widthStage
+  split
+  · dsimp only
+    generalize intFromArg args argNum = ifa
+    obtain ⟨num, isInt, newArg⟩ := ifa
+    dsimp only
+    have h1 : PO ov0 ({ buf := b1, override := o, f := { f with wid := num.toNat, widPresent := isInt }, erroring := e, panicking := pa, wrapErrs := we, wrappedErr := wd, reordered := ro, goodArgNum := ga } : PP)
+        { buf := b2, override := o, f := { f with wid := num.toNat, widPresent := isInt }, erroring := e, panicking := pa, wrapErrs := we, wrappedErr := wd, reordered := ro, goodArgNum := ga } :=
+      ⟨by prel_upd hp, ho⟩
+    have h2 := PO.ite (c := (!isInt) = true) (h1.w "%!(BADWIDTH)".toUTF8.toList) h1
+    revert h2
+    generalize (if (!isInt) = true then _ else _ : PP) = x1
+    generalize (if (!isInt) = true then _ else _ : PP) = x2
+    intro h2
+    refine ⟨?_, rfl⟩
+    rw [h2.1.f]
+    split
+    · exact ⟨by prel_upd h2.1, h2.2⟩
+    · exact h2
+  · dsimp only
+    generalize parsenum r = pn
+    obtain ⟨w, wp, r'⟩ := pn
+    dsimp only
+    refine ⟨?_, rfl⟩
+    split
+    · exact ⟨by prel_upd hp, ho⟩
+    · exact ⟨by prel_upd hp, ho⟩
+
+theorem precStage_rel {ov0 : Override} {p1 p2 : PP} (h : PO ov0 p1 p2) (args : List Val) (argNum : Nat) (r : List Byte) (ai : Bool) :
+    PO ov0 (precStage p1 args argNum r ai).1 (precStage p2 args argNum r ai).1 ∧
+    (precStage p1 args argNum r ai).2 = (precStage p2 args argNum r ai).2 := by
+  unfold precStage
+  split
+  · rename_i c r''
+    dsimp only
+    have g1 : PO ov0 (if ai = true then { p1 with goodArgNum := false } else p1) (if ai = true then { p2 with goodArgNum := false } else p2) :=
+      PO.ite ⟨by prel_upd h.1, h.2⟩ h
+    revert g1
+    generalize (if ai = true then _ else _ : PP) = x1
+    generalize (if ai = true then _ else _ : PP) = x2
+    intro g1
+    have g2 := argNumber_rel g1 argNum (c :: r'') args.length
+    revert g2
+    generalize argNumber x1 argNum (c :: r'') args.length = an1
+    generalize argNumber x2 argNum (c :: r'') args.length = an2
+    intro g2
+    obtain ⟨y1, argNum1, r1, ai1⟩ := an1
+    obtain ⟨y2, argNum2, r2, ai2⟩ := an2
+    obtain ⟨g2, e2⟩ := g2
+    simp only [Prod.mk.injEq] at e2
+    obtain ⟨rfl, rfl, rfl⟩ := e2
+    dsimp only at g2 ⊢
+    split
+    · dsimp only
+      generalize intFromArg args argNum1 = ifa
+      obtain ⟨num, isInt, newArg⟩ := ifa
+      dsimp only
+      generalize (if num < 0 then ((0 : Nat), false) else (num.toNat, isInt)) = pp
+      obtain ⟨prec, precPresent⟩ := pp
+      dsimp only
+      refine ⟨?_, rfl⟩
+      rw [g2.1.f]
+      have h3 : PO ov0 { y1 with f := { y1.f with prec := prec, precPresent := precPresent } } { y2 with f := { y1.f with prec := prec, precPresent := precPresent } } :=
+        ⟨by prel_upd g2.1, g2.2⟩
+      exact PO.ite (h3.w _) h3
+    · dsimp only
+      generalize parsenum r1 = pn
+      obtain ⟨pr, ppres, r3⟩ := pn
+      dsimp only
+      refine ⟨?_, rfl⟩
+      rw [g2.1.f]
+      exact ⟨by prel_upd g2.1, g2.2⟩
+  · exact ⟨h, rfl⟩
+
+
+theorem PO.ite' {ov0 : Override} {c1 c2 : Prop} [Decidable c1] [Decidable c2] (hc : c1 ↔ c2) {a1 b1 a2 b2 : PP}
+    (ha : PO ov0 a1 a2) (hb : PO ov0 b1 b2) : PO ov0 (if c1 then a1 else b1) (if c2 then a2 else b2) := by
+  by_cases h : c1
+  · rw [if_pos h, if_pos (hc.1 h)]; exact ha
+  · rw [if_neg h, if_neg (fun h2 => h (hc.2 h2))]; exact hb
+
+theorem RR_ite' {ov0 : Override} {c1 c2 : Prop} [Decidable c1] [Decidable c2] (hc : c1 ↔ c2) {a1 b1 a2 b2 : Res}
+    (ha : RR ov0 a1 a2) (hb : RR ov0 b1 b2) : RR ov0 (if c1 then a1 else b1) (if c2 then a2 else b2) := by
+  by_cases h : c1
+  · rw [if_pos h, if_pos (hc.1 h)]; exact ha
+  · rw [if_neg h, if_neg (fun h2 => h (hc.2 h2))]; exact hb
+
+theorem PO_setSafe {ov0 : Override} {p1 p2 : PP} (h : PO ov0 p1 p2) :
+    PO ov0 (if p1.override ≠ .ovUnsafe then { p1 with buf := p1.buf.setMode .safeEsc } else p1)
+           (if p2.override ≠ .ovUnsafe then { p2 with buf := p2.buf.setMode .safeEsc } else p2) :=
+  PO.ite' (by rw [h.1.ov]) ⟨P_setMode h.1 .safeEsc (by decide), h.2⟩ h
+
+theorem secAtL_tail {ov0 : Override} {a : Val} {l : List Val} (h : SecAtL pub ov0 (a :: l)) : SecAtL pub ov0 l :=
+  fun v hv => h v (by simp [hv])
+
+theorem rstep_doPrint (S : RSpec pub env1 env2 n) :
+    ∀ ov0 p1 p2 args, PRel p1 p2 → p1.override = ov0 → ListOk args → SecAtL pub ov0 args →
+    RR ov0 (doPrint env1 (n + 1) p1 args) (doPrint env2 (n + 1) p2 args) := by
+  intro ov0 p1 p2 args hp ho ha hs
+  unfold doPrint
+  dsimp only
+  have g := PO_setSafe (show PO ov0 p1 p2 from ⟨hp, ho⟩)
+  exact S.doPrintLoop _ _ _ _ _ _ g.1 g.2 ha hs
+
+theorem rstep_doPrintLoop (S : RSpec pub env1 env2 n) :
+    ∀ ov0 p1 p2 args k ps, PRel p1 p2 → p1.override = ov0 → ListOk args → SecAtL pub ov0 args →
+    RR ov0 (doPrintLoop env1 (n + 1) p1 args k ps) (doPrintLoop env2 (n + 1) p2 args k ps) := by
+  intro ov0 p1 p2 args k ps hp ho ha hs
+  have hpo : PO ov0 p1 p2 := ⟨hp, ho⟩
+  unfold doPrintLoop
+  split
+  · exact hpo.ok
+  · rename_i arg rest
+    dsimp only
+    have g1 := PO.ite (c := k > 0 ∧ (!isStringKind arg) = true ∧ (!ps) = true) (hpo.wb 0x20) hpo
+    apply RR_bind (S.printArg _ _ _ _ _ g1.1 g1.2 (ha arg (by simp)) (hs arg (by simp)))
+    intro q1 q2 hq hoq
+    exact S.doPrintLoop _ _ _ _ _ _ hq hoq (fun v hv => ha v (by simp [hv])) (secAtL_tail hs)
+
+theorem rstep_doPrintf (S : RSpec pub env1 env2 n) :
+    ∀ ov0 p1 p2 f args, PRel p1 p2 → p1.override = ov0 → ListOk args → SecAtL pub ov0 args →
+    RR ov0 (doPrintf env1 (n + 1) p1 f args) (doPrintf env2 (n + 1) p2 f args) := by
+  intro ov0 p1 p2 f args hp ho ha hs
+  unfold doPrintf
+  dsimp only
+  have g := PO_setSafe (show PO ov0 p1 p2 from ⟨hp, ho⟩)
+  revert g
+  generalize (if p1.override ≠ .ovUnsafe then _ else _ : PP) = x1
+  generalize (if p2.override ≠ .ovUnsafe then _ else _ : PP) = x2
+  intro g
+  have g2 : PO ov0 { x1 with reordered := false } { x2 with reordered := false } := ⟨by prel_upd g.1, g.2⟩
+  apply RR_bind (S.fmtLoop _ _ _ _ _ _ _ g2.1 g2.2 ha hs)
+  intro q1 q2 hq hoq
+  exact RR_ok hq hoq
+
+theorem rstep_extraLoop (S : RSpec pub env1 env2 n) :
+    ∀ ov0 p1 p2 args f, PRel p1 p2 → p1.override = ov0 → ListOk args → SecAtL pub ov0 args →
+    RR ov0 (extraLoop env1 (n + 1) p1 args f) (extraLoop env2 (n + 1) p2 args f) := by
+  intro ov0 p1 p2 args fst hp ho ha hs
+  have hpo : PO ov0 p1 p2 := ⟨hp, ho⟩
+  unfold extraLoop
+  split
+  · exact hpo.ok
+  · rename_i a rest
+    dsimp only
+    have g1 := PO.ite (c := fst = true) hpo (hpo.w ", ".toUTF8.toList)
+    revert g1
+    generalize (if fst = true then _ else _ : PP) = x1
+    generalize (if fst = true then _ else _ : PP) = x2
+    intro g1
+    apply RR_bind (ov0 := ov0)
+    · split
+      · exact (g1.w _).ok
+      · have g2 := (g1.w (typeName a)).wb 0x3D
+        exact S.printArg _ _ _ _ _ g2.1 g2.2 (ha a (by simp)) (hs a (by simp))
+    · intro q1 q2 hq hoq
+      exact S.extraLoop _ _ _ _ _ hq hoq (fun v hv => ha v (by simp [hv])) (secAtL_tail hs)
+
+theorem secAtL_drop {ov0 : Override} {l : List Val} (h : SecAtL pub ov0 l) (k : Nat) : SecAtL pub ov0 (l.drop k) :=
+  fun v hv => h v (List.mem_of_mem_drop hv)
+
+theorem rstep_finishPrintf (S : RSpec pub env1 env2 n) :
+    ∀ ov0 p1 p2 args k, PRel p1 p2 → p1.override = ov0 → ListOk args → SecAtL pub ov0 args →
+    RR ov0 (finishPrintf env1 (n + 1) p1 args k) (finishPrintf env2 (n + 1) p2 args k) := by
+  intro ov0 p1 p2 args k hp ho ha hs
+  have hpo : PO ov0 p1 p2 := ⟨hp, ho⟩
+  unfold finishPrintf
+  apply RR_ite' (by rw [hp.ro])
+  · dsimp only
+    have h1 : PO ov0 { p1 with f := p1.f.clear } { p2 with f := p2.f.clear } := ⟨by prel_upd hp, ho⟩
+    have g2 := h1.w "%!(EXTRA ".toUTF8.toList
+    apply RR_then_wb
+    exact S.extraLoop _ _ _ _ _ g2.1 g2.2 (listOk_drop ha k) (secAtL_drop hs k)
+  · exact hpo.ok
+
+
+theorem secAtL_get {ov0 : Override} {args : List Val} (h : SecAtL pub ov0 args) {k : Nat} {a : Val} (hk : args[k]? = some a) :
+    SecAt pub ov0 a := h a (List.mem_of_getElem? hk)
+
+theorem rstep_fmtLoop (S : RSpec pub env1 env2 n) :
+    ∀ ov0 p1 p2 f args k ai, PRel p1 p2 → p1.override = ov0 → ListOk args → SecAtL pub ov0 args →
+    RR ov0 (fmtLoop env1 (n + 1) p1 f args k ai) (fmtLoop env2 (n + 1) p2 f args k ai) := by
+  intro ov0 p1 p2 fmt args k ai hp ho ha hs
+  unfold fmtLoop
+  dsimp only
+  have h0 : PO ov0 { p1 with goodArgNum := true } { p2 with goodArgNum := true } := ⟨by prel_upd hp, ho⟩
+  have g1 := PO.ite (c := (fmt.takeWhile (· ≠ 0x25)).isEmpty = true) h0 (h0.w (fmt.takeWhile (· ≠ 0x25)))
+  revert g1
+  generalize (if (fmt.takeWhile (· ≠ 0x25)).isEmpty = true then _ else _ : PP) = x1
+  generalize (if (fmt.takeWhile (· ≠ 0x25)).isEmpty = true then _ else _ : PP) = x2
+  intro g1
+  split
+  · exact S.finishPrintf _ _ _ _ _ g1.1 g1.2 ha hs
+  · rename_i c r0 _
+    generalize parseFlags true {} r0 = pf
+    obtain ⟨fs, r1⟩ := pf
+    dsimp only
+    split
+    · rename_i c2 r2
+      split
+      · split
+        · rename_i a ha2
+          refine RR_bind (S.printArg _ _ _ _ _ ?_ ?_ (listOk_get ha ha2) (secAtL_get hs ha2)) ?_
+          · split <;> prel_upd g1.1
+          · split <;> exact g1.2
+          · intro q1 q2 hq hoq
+            exact S.fmtLoop _ _ _ _ _ _ _ hq hoq ha hs
+        · refine RR_ok ?_ ?_
+          · split <;> prel_upd g1.1
+          · split <;> exact g1.2
+      · exact S.directiveTail _ _ _ _ _ _ _ (by prel_upd g1.1) g1.2 ha hs
+    · exact S.directiveTail _ _ _ _ _ _ _ (by prel_upd g1.1) g1.2 ha hs
+
+
+theorem rstep_directiveTail (S : RSpec pub env1 env2 n) :
+    ∀ ov0 p1 p2 f args k ai, PRel p1 p2 → p1.override = ov0 → ListOk args → SecAtL pub ov0 args →
+    RR ov0 (directiveTail env1 (n + 1) p1 f args k ai) (directiveTail env2 (n + 1) p2 f args k ai) := by
+  intro ov0 p1 p2 fmt args k ai hp ho ha hs
+  have hpo : PO ov0 p1 p2 := ⟨hp, ho⟩
+  unfold directiveTail
+  dsimp only
+  -- argument index
+  have g1 := argNumber_rel hpo k fmt args.length
+  revert g1
+  generalize argNumber p1 k fmt args.length = an1
+  generalize argNumber p2 k fmt args.length = an2
+  intro g1
+  obtain ⟨x1, k1, r1, ai1⟩ := an1
+  obtain ⟨x2, k1', r1', ai1'⟩ := an2
+  obtain ⟨g1, e1⟩ := g1
+  simp only [Prod.mk.injEq] at e1
+  obtain ⟨rfl, rfl, rfl⟩ := e1
+  dsimp only at g1 ⊢
+  -- width
+  have g2 := widthStage_rel g1 args k1 r1 ai1
+  revert g2
+  generalize widthStage x1 args k1 r1 ai1 = ws1
+  generalize widthStage x2 args k1 r1 ai1 = ws2
+  intro g2
+  obtain ⟨y1, k2, r2, ai2⟩ := ws1
+  obtain ⟨y2, k2', r2', ai2'⟩ := ws2
+  obtain ⟨g2, e2⟩ := g2
+  simp only [Prod.mk.injEq] at e2
+  obtain ⟨rfl, rfl, rfl⟩ := e2
+  dsimp only at g2 ⊢
+  -- precision
+  have g3 := precStage_rel g2 args k2 r2 ai2
+  revert g3
+  generalize precStage y1 args k2 r2 ai2 = ps1
+  generalize precStage y2 args k2 r2 ai2 = ps2
+  intro g3
+  obtain ⟨z1, k3, r3, ai3⟩ := ps1
+  obtain ⟨z2, k3', r3', ai3'⟩ := ps2
+  obtain ⟨g3, e3⟩ := g3
+  simp only [Prod.mk.injEq] at e3
+  obtain ⟨rfl, rfl, rfl⟩ := e3
+  dsimp only at g3 ⊢
+  -- trailing argument index
+  have g4 : PO ov0 (if (!ai3) = true then argNumber z1 k3 r3 args.length else (z1, k3, r3, ai3)).1
+      (if (!ai3) = true then argNumber z2 k3 r3 args.length else (z2, k3, r3, ai3)).1 ∧
+      (if (!ai3) = true then argNumber z1 k3 r3 args.length else (z1, k3, r3, ai3)).2 =
+      (if (!ai3) = true then argNumber z2 k3 r3 args.length else (z2, k3, r3, ai3)).2 := by
+    split
+    · exact argNumber_rel g3 _ _ _
+    · exact ⟨g3, rfl⟩
+  revert g4
+  generalize (if (!ai3) = true then argNumber z1 k3 r3 args.length else (z1, k3, r3, ai3)) = an41
+  generalize (if (!ai3) = true then argNumber z2 k3 r3 args.length else (z2, k3, r3, ai3)) = an42
+  intro g4
+  obtain ⟨w1, k4, r4, ai4⟩ := an41
+  obtain ⟨w2, k4', r4', ai4'⟩ := an42
+  obtain ⟨g4, e4⟩ := g4
+  simp only [Prod.mk.injEq] at e4
+  obtain ⟨rfl, rfl, rfl⟩ := e4
+  dsimp only at g4 ⊢
+  split
+  · exact (g4.w _).ok
+  · rename_i verb r' _
+    have wbang := (g4.w percentBang).wr verb
+    rw [g4.1.ga]
+    split
+    · have g := g4.wb 0x25
+      exact S.fmtLoop _ _ _ _ _ _ _ g.1 g.2 ha hs
+    · split
+      · have g := wbang.w "(BADINDEX)".toUTF8.toList
+        exact S.fmtLoop _ _ _ _ _ _ _ g.1 g.2 ha hs
+      · split
+        · have g := wbang.w "(MISSING)".toUTF8.toList
+          exact S.fmtLoop _ _ _ _ _ _ _ g.1 g.2 ha hs
+        · split
+          · rename_i a ha2
+            refine RR_bind (S.printArg _ _ _ _ _ ?_ ?_ (listOk_get ha ha2) (secAtL_get hs ha2)) ?_
+            · split <;> prel_upd g4.1
+            · split <;> exact g4.2
+            · intro q1 q2 hq hoq
+              exact S.fmtLoop _ _ _ _ _ _ _ hq hoq ha hs
+          · refine RR_ok ?_ ?_
+            · split <;> prel_upd g4.1
+            · split <;> exact g4.2
+
+
+/-- **The relational theorem for the whole printer**, at every fuel. -/
+theorem rspec_all (he : EnvRel pub env1 env2) : ∀ n, RSpec pub env1 env2 n := by
+  intro n
+  induction n with
+  | zero => exact rspec_zero pub env1 env2
+  | succ n ih =>
+    exact {
+      printArg := rstep_printArg ih
+      printArgBody := rstep_printArgBody he ih
+      badVerb := rstep_badVerb ih
+      handleMethods := rstep_handleMethods ih
+      methDispatch := rstep_methDispatch he ih
+      fmtString := rstep_fmtString he ih
+      catchPanic := rstep_catchPanic ih
+      runScript := rstep_runScript he ih
+      printValue := rstep_printValue he ih
+      printSlot := rstep_printSlot ih
+      slotMethods := rstep_slotMethods ih
+      printFields := rstep_printFields ih
+      printElems := rstep_printElems ih
+      printPairs := rstep_printPairs ih
+      doPrint := rstep_doPrint ih
+      doPrintLoop := rstep_doPrintLoop ih
+      doPrintf := rstep_doPrintf ih
+      fmtLoop := rstep_fmtLoop ih
+      directiveTail := rstep_directiveTail ih
+      finishPrintf := rstep_finishPrintf ih
+      extraLoop := rstep_extraLoop ih }
+
 end Redact
